@@ -84,6 +84,7 @@ def dispatch (st : DriverState) (line : String) : DriverState × String :=
   | "runner" :: args => (st, Driver.Runner.handle args)
   | "clientstop" :: args => (st, Driver.Runner.clientStop args)
   | "plumbing" :: args => (st, Driver.Plumbing.handle args)
+  | "rabbitstop" :: args => (st, Driver.RabbitConn.stopHandle args)
   | "rabbitconn" :: args => let (s, out) := Driver.RabbitConn.handle st.rabbitconn args; ({ st with rabbitconn := s }, out)
   | "retrypolicy" :: args => let (s, out) := Driver.Backoff.handle st.backoff args; ({ st with backoff := s }, out)
   | ["ping"] => (st, "pong")
